@@ -9,6 +9,12 @@ SREG = ["ES", "CS", "SS", "DS", "FS", "GS"]
 SIZEKW = {0: "", 8: "BYTE ", 16: "WORD ", 32: "DWORD "}
 
 
+# layout (C12): gaps the grammar permits; canonical values below
+CANON = {"ind": "\t", "sep": "\t", "comma": ", ", "brk": "", "opsp": "", "trail": "", "cmt": "", "own": 0, "blank": 0,
+         "eol": "\n", "final": 1}
+LAY = dict(CANON)
+
+
 def num(v, sty="d"):
     """Render int32 value v.  Styles: d decimal (negative with '-'), h hex of v mod 2^32,
     x hex of |v| with sign."""
@@ -33,7 +39,7 @@ def expr(e):
         return "(" + expr(e["a"]) + ")"
     if o == "neg":
         return "-" + expr(e["a"])
-    sp = e.get("sp", "")
+    sp = e.get("sp", LAY["opsp"])
     return expr(e["a"]) + sp + o + sp + expr(e["b"])
 
 
@@ -52,20 +58,22 @@ def mem(o):
             parts.append("%s*%d" % (regs[o["x"]], o["sc"]))
         else:
             parts.append(regs[o["x"]])
-    s = "+".join(parts)
+    plus = LAY["opsp"] + "+" + LAY["opsp"]
+    minus = LAY["opsp"] + "-" + LAY["opsp"]
+    s = plus.join(parts)
     lab = o.get("lab", "")
     if lab:
-        s = (s + "+" if s else "") + lab
+        s = (s + plus if s else "") + lab
     d = o.get("d", 0)
     hd = o.get("hd", 1 if (d != 0 or not s) else 0)
     if hd:
         if not s:
             s = num(d, o.get("sty", "d"))
         elif d < 0:
-            s += "-" + num(-d, o.get("sty", "d")) if d != -2147483648 else "+" + num(d, "h")
+            s += minus + num(-d, o.get("sty", "d")) if d != -2147483648 else plus + num(d, "h")
         else:
-            s += "+" + num(d, o.get("sty", "d"))
-    return SIZEKW[o.get("w", 0)] + "[" + s + "]"
+            s += plus + num(d, o.get("sty", "d"))
+    return SIZEKW[o.get("w", 0)] + "[" + LAY["brk"] + s + LAY["brk"] + "]"
 
 
 def operand(o):
@@ -99,9 +107,9 @@ def stmt(s):
     if k == "label":
         return s["nm"] + ":"
     if k == "equ":
-        return s["nm"] + "\tEQU\t" + expr(s["e"])
+        return s["nm"] + LAY["sep"] + "EQU" + LAY["sep"] + expr(s["e"])
     if k == "org":
-        return "\tORG\t" + num(s["v"], s.get("sty", "h"))
+        return LAY["ind"] + "ORG" + LAY["sep"] + num(s["v"], s.get("sty", "h"))
     if k == "bits":
         return "[BITS %d]" % s["v"]
     if k == "cfg":
@@ -109,37 +117,62 @@ def stmt(s):
             return '[%s "%s"]' % (s["mn"], s["s"])
         return "[%s %s]" % (s["mn"], s["s"])
     if k == "global":
-        return "\tGLOBAL\t" + ", ".join(s["names"])
+        return LAY["ind"] + "GLOBAL" + LAY["sep"] + LAY["comma"].join(s["names"])
     if k == "extern":
-        return "\tEXTERN\t" + ", ".join(s["names"])
+        return LAY["ind"] + "EXTERN" + LAY["sep"] + LAY["comma"].join(s["names"])
     if k == "data":
         items = []
         for it in s["items"]:
             items.append(string_lit(it["b"]) if it["t"] == "s" else expr(it["e"]))
-        return "\t%s\t%s" % (s["mn"], ", ".join(items))
+        return LAY["ind"] + s["mn"] + LAY["sep"] + LAY["comma"].join(items)
     if k == "resb":
-        return "\tRESB\t" + expr(s["e"])
+        return LAY["ind"] + "RESB" + LAY["sep"] + expr(s["e"])
     if k == "alignb":
-        return "\tALIGNB\t%d" % s["v"]
+        return LAY["ind"] + "ALIGNB" + LAY["sep"] + "%d" % s["v"]
     if k == "ins":
         if not s["ops"]:
-            return "\t" + s["mn"]
-        return "\t%s\t%s" % (s["mn"], ", ".join(operand(o) for o in s["ops"]))
+            return LAY["ind"] + s["mn"]
+        return LAY["ind"] + s["mn"] + LAY["sep"] + LAY["comma"].join(operand(o) for o in s["ops"])
     if k == "br":
         t = s["tgt"]
         if t["t"] == "n":
-            return "\t%s\t%s" % (s["mn"], num(t["v"], t.get("sty", "h")))
+            return LAY["ind"] + s["mn"] + LAY["sep"] + num(t["v"], t.get("sty", "h"))
         a = t.get("add", 0)
-        return "\t%s\t%s%s" % (s["mn"], t["nm"], (("+%d" % a) if a > 0 else ("%d" % a) if a < 0 else ""))
+        return LAY["ind"] + s["mn"] + LAY["sep"] + t["nm"] + (("+%d" % a) if a > 0 else ("%d" % a) if a < 0 else "")
     if k == "far":
-        return "\t%s\t%s%d:%s" % (s["mn"], (s.get("kw", "") + " ") if s.get("kw") else "", s["seg"], num(s["off"], s.get("sty", "d")))
+        return LAY["ind"] + s["mn"] + LAY["sep"] + "%s%d:%s" % ((s.get("kw", "") + " ") if s.get("kw") else "", s["seg"], num(s["off"], s.get("sty", "d")))
     if k == "raw":
         return s["text"]
     raise ValueError("stmt " + repr(s))
 
 
-def program(stmts, eol="\n"):
-    return eol.join(stmt(s) for s in stmts) + eol
+def program(stmts, eol="\n", layout=None):
+    """Render a program.  layout (C12) overrides the canonical gaps; per-statement variation is obtained by
+    passing a list of layouts (one per statement)."""
+    global LAY
+    if layout is None:
+        return eol.join(stmt(s) for s in stmts) + eol
+    out = []
+    n = len(stmts)
+    try:
+        for i, s in enumerate(stmts):
+            lay = dict(CANON)
+            lay.update(layout[i % len(layout)] if isinstance(layout, list) else layout)
+            LAY = lay
+            e = lay["eol"]
+            if lay["own"]:
+                out.append(lay["ind"] + "; own-line comment, with [brackets] and 'quotes'" + e)
+            line = stmt(s) + lay["trail"]
+            if lay["cmt"]:
+                line += (" " if not lay["trail"] else "") + lay["cmt"]
+            last = i == n - 1
+            if last and not lay["final"] and s["k"] != "label":
+                out.append(line)
+            else:
+                out.append(line + e + e * lay["blank"])
+    finally:
+        LAY = dict(CANON)
+    return "".join(out)
 
 
 # --------------------------------------------------------------------------------------------
